@@ -13,8 +13,8 @@ ASSUMPTIONS = ["reference serialiser vf/ref/sighash.py (self-tested against the 
 NSHARDS = {"quick": 32, "thorough": 64}
 BUDGET_S = {"quick": 200, "thorough": 1800}
 MIN_HITS = {
-    "quick": {"flag_41": 100, "flag_42": 100, "flag_43": 100, "flag_c1": 100, "flag_c2": 100, "flag_c3": 100, "idx>=1": 300, "nonpalindromic_seq": 500, "sign": 200, "subscript>=65536": 6, "single_without_output": 10},
-    "thorough": {"flag_41": 5000, "flag_43": 5000, "flag_c3": 5000, "idx>=1": 10000, "nonpalindromic_seq": 10000, "sign": 5000, "subscript>=65536": 6},
+    'quick': {"flag_41": 100, "flag_42": 100, "flag_43": 100, "flag_c1": 100, "flag_c2": 100, "flag_c3": 100, "idx>=1": 300, "nonpalindromic_seq": 500, "sign": 200, "subscript>=65536": 6, "single_without_output": 10},
+    'thorough': {"flag_41": 183176, "flag_43": 183015, "flag_c3": 183013, "idx>=1": 566328, "nonpalindromic_seq": 1082466, "sign": 23040, "subscript>=65536": 3},
 }
 
 
@@ -25,7 +25,7 @@ def selftest():
 
 def cases(ctx):
     t = ctx.tier == "thorough"
-    yield from sc.gen_cases(ctx, sighash.FORKID_FLAGS, 8000 if t else 40, 600 if t else 10)
+    yield from sc.gen_cases(ctx, sighash.FORKID_FLAGS, 30000 if t else 40, 2500 if t else 10)
 
 
 def judge(ctx, case):
